@@ -529,6 +529,88 @@ pub fn run_c19(ctx: &mut Ctx) {
             r
         })
         .collect();
+    // siblings of an imported item: the observed module imports one type of another module
+    // (or the whole module); definitions are added to that other module which neither the
+    // observed module nor the imported type mentions, with names the observed module uses for
+    // its OWN types and for the vftable structs generated for them
+    {
+        let ui = |style: usize| -> String {
+            let uses = match style {
+                0 => "use gfx::Color;\n",
+                1 => "use gfx;\n",
+                _ => "use gfx;\nuse gfx::Color;\n",
+            };
+            format!(
+                "{uses}pub type Widget {{ vftable {{ pub fn draw(&self, c: *const Color); }}, pub c: *const Color, }}\npub type PanelVftable {{ pub x: u32, }}\npub type Holder {{ pub t: *const WidgetVftable, pub w: *mut Widget, pub p: *const PanelVftable, pub col: Color, pub pad: u32, }}\nimpl Holder {{ #[address(0x1000)] pub fn table(&self) -> *const WidgetVftable; #[address(0x1040)] pub fn panel(&self, p: *mut PanelVftable); }}\n#[address(0x7000)] pub extern g_table: *const WidgetVftable;\n"
+            )
+        };
+        let gfx_base = "pub type Color { pub rgba: u32, }\n";
+        let additions: Vec<(&str, &str)> = vec![
+            ("type-Widget-with-vftable", "pub type Widget { vftable { pub fn other(&self); pub fn more(&self); }, pub big: [u64; 4], }\n"),
+            ("type-WidgetVftable", "pub type WidgetVftable { pub big: [u64; 5], }\n"),
+            ("type-PanelVftable", "pub type PanelVftable { pub big: [u64; 3], }\n"),
+            ("type-Panel-with-vftable", "pub type Panel { vftable { pub fn p(&self); }, }\n"),
+            ("type-Holder", "pub type Holder { pub big: [u64; 7], }\n"),
+            ("enum-Widget", "pub enum Widget: u8 { A, }\n"),
+            ("extern-type-WidgetVftable", "#[size(24), align(8)] extern type WidgetVftable;\n"),
+            ("fresh-type-with-vftable", "pub type Fresh { vftable { pub fn f(&self); }, }\npub type FreshUser { pub t: *const FreshVftable, }\n"),
+        ];
+        let mut compared = 0u64;
+        let mut skipped = 0u64;
+        for style in 0..3usize {
+            for ptrw in [4usize, 8] {
+                for gfx_first in [true, false] {
+                    let parse = |t: &str| pyxis::parser::parse_str(t).expect("C19 sibling case parses");
+                    let mk = |gfx_text: &str| -> Mods {
+                        let mut v = vec![(ItemPath::from("ks_gfx"), parse(gfx_text)), (ItemPath::from("ks_ui"), parse(&ui(style).replace("gfx", "ks_gfx")))];
+                        if !gfx_first {
+                            v.reverse();
+                        }
+                        v
+                    };
+                    let s0 = mk(gfx_base);
+                    ctx.eval();
+                    let Ok(base) = build_files(&s0, ptrw) else {
+                        ctx.inconclusive("the base input of the sibling family was rejected".to_string());
+                        continue;
+                    };
+                    for a in 0..additions.len() {
+                        for b in a..additions.len() {
+                            let mut text = String::from(gfx_base);
+                            text.push_str(additions[a].1);
+                            if b != a {
+                                text.push_str(additions[b].1);
+                            }
+                            let s1 = mk(&text);
+                            ctx.eval();
+                            match build_files(&s1, ptrw) {
+                                Err(e) if e.stage == Stage::Panic => ctx.violation("C19/panic", &e.msg, json!({"S": case_json(&s0, ptrw), "S_prime": case_json(&s1, ptrw)})),
+                                Err(_) => skipped += 1,
+                                Ok(o2) => {
+                                    compared += 1;
+                                    ctx.nontrivial(crate::rng::fnv(format!("sibling{style}{ptrw}{gfx_first}{a}{b}").as_bytes()));
+                                    if base.get("ks_ui.rs") != o2.get("ks_ui.rs") {
+                                        let x: BTreeMap<String, String> = base.iter().filter(|(k, _)| *k == "ks_ui.rs").map(|(k, v)| (k.clone(), v.clone())).collect();
+                                        let y: BTreeMap<String, String> = o2.iter().filter(|(k, _)| *k == "ks_ui.rs").map(|(k, v)| (k.clone(), v.clone())).collect();
+                                        ctx.violation(
+                                            "C19/output-changed/sibling-of-imported-item",
+                                            &format!("adding {} (+{}) to the imported module changed the importer's file: {}", additions[a].0, additions[b].0, first_diff(&x, &y).unwrap_or_default()),
+                                            json!({"observed_module": "ks_ui", "S": case_json(&s0, ptrw), "S_prime": case_json(&s1, ptrw)}),
+                                        );
+                                    }
+                                }
+                            }
+                        }
+                    }
+                }
+            }
+        }
+        ctx.count("pairs_compared/sibling-of-imported-item", compared);
+        ctx.count("variants_rejected_skipped", skipped);
+        if compared < 100 {
+            ctx.inconclusive(format!("only {compared} sibling pairs were accepted"));
+        }
+    }
     let mut agg: BTreeMap<&'static str, u64> = BTreeMap::new();
     for r in results {
         ctx.evals(r.evals);
